@@ -402,7 +402,10 @@ class Service(object):
             self.complete = True
             if len(txs) == limit:
                 self.complete = False
+                # The block of the last transaction might contain more transactions for this address
                 last_block = txs[-1:][0].block_height
+                if last_block:
+                    last_block -= 1
             if len(txs):
                 last_txid = bytes.fromhex(txs[-1:][0].txid)
             if len(self.results):
